@@ -48,7 +48,7 @@ def run(ctx):
     from geneticengine.solutions.individual import Individual
 
     H = ctx.H
-    rep = make_intrep()
+    rep = make_intrep(lossy_str=(H.draw(3) == 2))
     rnd = SimRandom(ctx, H.pick(["uniform", "edge", "native"]))
     minimize = bool(H.draw(2))
     multi = H.draw(5) == 4
@@ -96,7 +96,38 @@ def run(ctx):
         def agg(g):
             return -value(g) if minimize else value(g)
 
-    evaluator = SequentialEvaluator()
+    parallel = H.draw(4) == 3
+    if parallel:
+        import contextlib
+        from geneticengine.evaluation.parallel import ParallelEvaluator
+        from ..seams import installed_pool
+
+        evaluator = ParallelEvaluator()
+        pool_cm = installed_pool(ctx)
+        ctx.stat("parallel_evaluator_runs")
+    else:
+        import contextlib
+
+        evaluator = SequentialEvaluator()
+        pool_cm = contextlib.nullcontext()
+    with pool_cm:
+        return run_body(ctx, H, rep, rnd, minimize, multi, problem, evaluator, agg, value, rtype)
+
+
+def run_body(ctx, H, rep, rnd, minimize, multi, problem, evaluator, agg, value, rtype):
+    from geneticengine.algorithms.gp.gp import GeneticProgramming
+    from geneticengine.algorithms.gp.operators.combinators import ParallelStep, SequenceStep
+    from geneticengine.algorithms.gp.operators.crossover import GenericCrossoverStep
+    from geneticengine.algorithms.gp.operators.elitism import ElitismStep
+    from geneticengine.algorithms.gp.operators.mutation import GenericMutationStep
+    from geneticengine.algorithms.gp.operators.novelty import NoveltyStep
+    from geneticengine.algorithms.gp.operators.selection import TournamentSelection
+    from geneticengine.algorithms.gp.population import Population
+    from geneticengine.evaluation.budget import SearchBudget
+    from geneticengine.evaluation.tracker import MultiObjectiveProgressTracker, SingleObjectiveProgressTracker
+    from geneticengine.problems import MultiObjectiveProblem, SingleObjectiveProblem
+    from geneticengine.solutions.individual import Individual
+
     mode = H.weighted([("direct", 3), ("gp", 1)])
     ctx.stat("mode:" + mode)
     if mode == "direct":
